@@ -217,15 +217,16 @@ TypeOK ==
 Done  == pc = "done"
 Fresh == pc = "loop" /\ mask = {}     \* the initial states (every evaluated mask is non-empty)
 
-\* properties of the input alone are checked once per input, on the initial states
-EssBounds     == Fresh => EssBoundsOf(w)
-EssScale      == Fresh => EssScaleOf(w)
-EssUniform    == Fresh => EssUniformOf(w)
-EssFracBounds == Fresh => EssFracBoundsOf(w)
-SortedOK      == Fresh => \A r \in 0..(N - 1) : OrderStat(r) = OrderStatByCount(r)
-ExactTieOnly  == Fresh => \A k \in 0..(bins - 1) : ExactTieAt(k)
+\* properties of the input alone are checked once per input: on its final state
+\* (TLC evaluates initial states in a single thread, successor states on all workers)
+EssBounds     == Done => EssBoundsOf(w)
+EssScale      == Done => EssScaleOf(w)
+EssUniform    == Done => EssUniformOf(w)
+EssFracBounds == Done => EssFracBoundsOf(w)
+SortedOK      == Done => \A r \in 0..(N - 1) : OrderStat(r) = OrderStatByCount(r)
+ExactTieOnly  == Done => \A k \in 0..(bins - 1) : ExactTieAt(k)
 \* a strictly interpolated threshold lies strictly between its two neighbours
-InterpStrict  == Fresh => \A k \in 0..(bins - 1) :
+InterpStrict  == Done => \A k \in 0..(bins - 1) :
                     (Gn(k) # 0 /\ LoVal(k) < HiVal(k)) =>
                         (LoVal(k) * D < ThetaN(k) /\ ThetaN(k) < HiVal(k) * D)
 
